@@ -23,6 +23,7 @@ static void gcd_case(vr::Runner &R, const char *tn, long a0, long b0, bool verbo
     R.crumb_text(cs);
     T a = T(a0), b = T(b0), x = T(12345), y = T(12345), g;
     try { g = parmcb::fp<T>::ext_gcd(a, b, x, y); }
+    catch (std::runtime_error *e) { delete e; R.crumb_done(); R.violation({"fp::ext_gcd", "exception", cs, "threw"}); return; }
     catch (...) { R.crumb_done(); R.violation({"fp::ext_gcd", "exception", cs, "threw"}); return; }
     R.crumb_done();
     R.count(C_EVAL); if (a0 != 0 && b0 != 0) R.count(C_NONTRIV);
@@ -37,7 +38,8 @@ static void inv_case(vr::Runner &R, const char *tn, long a0, long p0, bool verbo
     std::string cs = std::string("fn=get_mult_inverse;T=") + tn + ";a=" + std::to_string(a0) + ";p=" + std::to_string(p0);
     R.crumb_text(cs);
     T a = T(a0), p = T(p0), r; bool threw = false;
-    try { r = parmcb::fp<T>::get_mult_inverse(a, p); } catch (...) { threw = true; }
+    // the library signals errors with `throw new std::runtime_error`: the catcher owns the object
+    try { r = parmcb::fp<T>::get_mult_inverse(a, p); } catch (std::runtime_error *e) { delete e; threw = true; } catch (...) { threw = true; }
     R.crumb_done();
     R.count(C_EVAL); R.count(C_NONTRIV);
     bool coprime = gcd_ref(a0, p0) == 1;
@@ -56,7 +58,7 @@ static void prime_case(vr::Runner &R, const char *tn, long p0, bool verbose = fa
     std::string cs = std::string("fn=is_prime;T=") + tn + ";p=" + std::to_string(p0);
     R.crumb_text(cs);
     bool got;
-    try { got = parmcb::primes<T>::is_prime(T(p0)); } catch (...) { R.crumb_done(); R.violation({"primes::is_prime", "exception", cs, "threw"}); return; }
+    try { got = parmcb::primes<T>::is_prime(T(p0)); } catch (std::runtime_error *e) { delete e; R.crumb_done(); R.violation({"primes::is_prime", "exception", cs, "threw"}); return; } catch (...) { R.crumb_done(); R.violation({"primes::is_prime", "exception", cs, "threw"}); return; }
     R.crumb_done();
     R.count(C_EVAL); R.count(C_NONTRIV);
     bool want;
